@@ -9,6 +9,9 @@ from ..utils.datastructures import cached_property, unprovided
 from .field import ParserField
 from .options import Options, RuntimeContext
 from .rule import resolve_forward_type
+import threading
+
+_forward_refs_lock = threading.RLock()
 
 __parsers__ = {}
 
@@ -219,6 +222,20 @@ class BaseParser:
         return item in self.fields
 
     def resolve_forward_refs(self, local_vars=None, ignore_errors: bool = True):
+        if not self.forward_refs and not self._resolving_forward_refs:
+            return False
+        # the references are resolved lazily at the first call, rewriting the field types in place:
+        # first calls made by several threads at once must not do (or observe) that half-way
+        with _forward_refs_lock:
+            self._resolving_forward_refs = True
+            try:
+                return self._resolve_forward_refs(local_vars=local_vars, ignore_errors=ignore_errors)
+            finally:
+                self._resolving_forward_refs = False
+
+    _resolving_forward_refs = False
+
+    def _resolve_forward_refs(self, local_vars=None, ignore_errors: bool = True):
         if not self.forward_refs:
             return False
         clear_refs = []
